@@ -217,60 +217,88 @@ def completeIv (number : Nat) : ExtXKey → ExtXKey
     then some { k with iv := .number number } else some k
   | none => none
 
-/-- the numbering / IV / byte-range loop of `build` over the slots.
-`i` = slot index, `prev` = `previous_range`. Overflow of `i + sequence_number` is an error
-(after the `fix:`). -/
+/-- offset resolution of `build` for one segment (`previous_range` = `prev`) -/
+def resolveRange (prev : Option ByteRange) : Option ByteRange → Res (Option ByteRange)
+  | some r =>
+    match r.start with
+    | none =>
+      match prev with
+      | some p => ((r.saturatingAdd p.end_).setStart (some p.end_)).map some
+      | none => (r.setStart (some 0)).map some
+    | some _ => .ok (some r)
+  | none => .ok none
+
+/-- number of the segment in slot `i`: implicit numbers are `i + sequence_number`
+(overflow is an error after the `fix:`), explicit ones are kept -/
+def segNumber (seq i : Nat) (s : MediaSegment) : Res Nat :=
+  if !s.explicit_number then (if i + seq ≤ u64Max then .ok (i + seq) else .err) else .ok s.number
+
+/-- one iteration of the numbering / IV / byte-range loop of `build` -/
+def buildOne (seq i : Nat) (prev : Option ByteRange) (s : MediaSegment) : Res MediaSegment :=
+  match segNumber seq i s with
+  | .ok number =>
+    match resolveRange prev s.byte_range with
+    | .ok br => .ok { s with number := number, keys := s.keys.map (completeIv number), byte_range := br }
+    | .err => .err
+    | .panic => .panic
+  | .err => .err
+  | .panic => .panic
+
+def nextPrev (prev : Option ByteRange) : Option ByteRange → Option ByteRange
+  | some r => some r
+  | none => prev
+
+/-- the loop of `build` over the slots; `i` = slot index, `prev` = `previous_range` -/
 def buildLoop (seq : Nat) : Nat → Option ByteRange → List (Option MediaSegment) → Res (List (Option MediaSegment))
   | _, _, [] => .ok []
-  | i, prev, none :: rest => do
-    let r ← buildLoop seq (i + 1) prev rest
-    pure (none :: r)
-  | i, prev, some s :: rest => do
-    let number ← (if !s.explicit_number then (if i + seq ≤ u64Max then Res.ok (i + seq) else .err) else .ok s.number)
-    let keys := s.keys.map (completeIv number)
-    let br ← (match s.byte_range with
-      | some r =>
-        match r.start with
-        | none =>
-          match prev with
-          | some p => (r.saturatingAdd p.end_).setStart (some p.end_) |>.map some
-          | none => (r.setStart (some 0)).map some
-        | some _ => Res.ok (some r)
-      | none => Res.ok none)
-    let prev' := match br with
-      | some r => some r
-      | none => prev
-    let r ← buildLoop seq (i + 1) prev' rest
-    pure (some { s with number := number, keys := keys, byte_range := br } :: r)
+  | i, prev, none :: rest =>
+    match buildLoop seq (i + 1) prev rest with
+    | .ok r => .ok (none :: r)
+    | .err => .err
+    | .panic => .panic
+  | i, prev, some s :: rest =>
+    match buildOne seq i prev s with
+    | .ok s' =>
+      match buildLoop seq (i + 1) (nextPrev prev s'.byte_range) rest with
+      | .ok r => .ok (some s' :: r)
+      | .err => .err
+      | .panic => .panic
+    | .err => .err
+    | .panic => .panic
 
 def firstFilled : List (Option MediaSegment) → Option MediaSegment
   | [] => none
   | some s :: _ => some s
   | none :: rest => firstFilled rest
 
+/-- "no segment should exist before the sequence_number" -/
+def firstBad (seq : Nat) (slots : List (Option MediaSegment)) : Bool :=
+  match firstFilled slots with
+  | some f => decide (seq > f.number) && f.explicit_number
+  | none => false
+
+/-- the tail of `build`: compactness, required `target_duration`, construction -/
+def finishBuild (b : MediaPlaylistBuilder) (slots' : List (Option MediaSegment)) : Res MediaPlaylist :=
+  if slots'.any (·.isNone) then .err else
+  match b.target_duration with
+  | none => .err
+  | some td =>
+    .ok ⟨td, b.media_sequence.getD 0, b.discontinuity_sequence.getD 0, (b.playlist_type.getD none),
+         b.has_i_frames_only.getD false, b.has_independent_segments.getD false, (b.start.getD none),
+         b.has_end_list.getD false, slotValues slots', b.allowable_excess_duration.getD 0,
+         b.unknown.getD []⟩
+
 /-- `MediaPlaylistBuilder::build` -/
 def MediaPlaylistBuilder.build (b : MediaPlaylistBuilder) : Res MediaPlaylist :=
   if !b.validate then .err else
-  let seq := b.media_sequence.getD 0
   match b.segments with
   | none => .err
   | some slots =>
-    let firstBad := match firstFilled slots with
-      | some f => decide (seq > f.number) && f.explicit_number
-      | none => false
-    if firstBad then .err else
-    match buildLoop seq 0 none slots with
+    if firstBad (b.media_sequence.getD 0) slots then .err else
+    match buildLoop (b.media_sequence.getD 0) 0 none slots with
     | .err => .err
     | .panic => .panic
-    | .ok slots' =>
-      if slots'.any (·.isNone) then .err else
-      match b.target_duration with
-      | none => .err
-      | some td =>
-        .ok ⟨td, seq, b.discontinuity_sequence.getD 0, (b.playlist_type.getD none),
-             b.has_i_frames_only.getD false, b.has_independent_segments.getD false, (b.start.getD none),
-             b.has_end_list.getD false, slotValues slots', b.allowable_excess_duration.getD 0,
-             b.unknown.getD []⟩
+    | .ok slots' => finishBuild b slots'
 
 /-! ## the parser -/
 
@@ -333,18 +361,11 @@ def assembleMedia (b : MediaPlaylistBuilder) (ls : List Line) : Res MediaPlaylis
   | .err => .err
   | .panic => .panic
 
-/-- one iteration on an iterator item (the `line?`) -/
-def mediaStepItem (st : PState) (it : Res Line) : Res PState :=
-  match it with
-  | .ok l => mediaStep st l
-  | .err => .err
-  | .panic => .panic
-
 /-- `parse_media_playlist(input, builder)` -/
 def parseMediaWith (b : MediaPlaylistBuilder) (input : Str) : Res MediaPlaylist :=
   match stripTag input pfxM3u with
   | .ok rest =>
-    match foldRes mediaStepItem { builder := b } (lineItems rest) with
+    match foldRes (liftItem mediaStep) { builder := b } (lineItems rest) with
     | .ok st => mediaFinish st
     | .err => .err
     | .panic => .panic
